@@ -204,6 +204,7 @@ class EchoW:
         for code in CUR['history']:
             op, default = OPS[code]
             t0 = _touch()
+            h0 = CUR.get('hcalls', 0)
             try:
                 if op == 'get':
                     v = req.get_media()
@@ -217,6 +218,7 @@ class EchoW:
             else:
                 log.append((op, default, 'ret', v, _touch() - t0))
                 last = None
+            CUR.setdefault('hdelta', []).append(CUR.get('hcalls', 0) - h0)
         if CUR['propagate'] and last is not None:
             raise last
         resp.text = 'ok'
@@ -229,6 +231,7 @@ class EchoA:
         for code in CUR['history']:
             op, default = OPS[code]
             t0 = _touch()
+            h0 = CUR.get('hcalls', 0)
             try:
                 if op == 'get':
                     v = await req.get_media()
@@ -242,9 +245,77 @@ class EchoA:
             else:
                 log.append((op, default, 'ret', v, _touch() - t0))
                 last = None
+            CUR.setdefault('hdelta', []).append(CUR.get('hcalls', 0) - h0)
         if CUR['propagate'] and last is not None:
             raise last
         resp.text = 'ok'
+
+
+# ---- first parse attempt fails with an arbitrary (non-HTTP) exception
+
+FAULTY_SYNC = 'application/x-c12-faulty-sync'
+FAULTY_ASYNC = 'application/x-c12-faulty-async'
+
+EXC_FACTORIES = {
+    'TypeError': lambda: TypeError('custom handler: unexpected type'),
+    'ValueError': lambda: ValueError('custom handler: bad value'),
+    'RuntimeError': lambda: RuntimeError('custom handler: broken'),
+    'KeyError': lambda: KeyError('missing'),
+    'OSError': lambda: OSError('custom handler: connection reset while reading'),
+    'HTTPUnprocessableEntity': lambda: falcon.HTTPUnprocessableEntity(description='custom handler'),
+    'MediaMalformedError': lambda: falcon.MediaMalformedError('C12'),
+}
+
+
+def _handler_act(data):
+    """Body of the custom handlers: count the invocation; raise as planned (or succeed on the 2nd invocation)."""
+    CUR['hcalls'] = CUR.get('hcalls', 0) + 1
+    plan = CUR['hplan']
+    if plan.get('succeed_second') and CUR['hcalls'] >= 2:
+        return ['parsed on the second attempt', len(data or b'')]
+    raise EXC_FACTORIES[plan['exc']]()
+
+
+class FaultySyncHandler(falcon.media.BaseHandler):
+    """Implements only the sync interface (ASGI reaches it through BaseHandler.deserialize_async)."""
+
+    def deserialize(self, stream, content_type, content_length):
+        if CUR['hplan']['when'] == 'before-read':
+            return _handler_act(None)
+        return _handler_act(stream.read())
+
+    def serialize(self, media, content_type):
+        return b'-'
+
+
+class FaultyAsyncHandler(FaultySyncHandler):
+    async def deserialize_async(self, stream, content_type, content_length):
+        if CUR['hplan']['when'] == 'before-read':
+            return _handler_act(None)
+        return _handler_act(await stream.read())
+
+
+class FlakyInput(W.FakeInput):
+    """wsgi.input whose k-th read (0-based) fails the way a closing connection does."""
+
+    def __init__(self, data, fail_at):
+        super().__init__(data, limit=len(data))
+        self.fail_at = fail_at
+        self.failures = 0
+
+    def _maybe_fail(self, op, size):
+        if len(self.calls) == self.fail_at:
+            self.calls.append((op, size, 'raised'))
+            self.failures += 1
+            raise OSError('simulated: connection reset by peer while reading the request body')
+
+    def read(self, size=-1):
+        self._maybe_fail('read', size)
+        return super().read(size)
+
+    def readline(self, size=-1):
+        self._maybe_fail('readline', size)
+        return super().readline(size)
 
 
 _APPS = {}
@@ -258,6 +329,8 @@ def apps():
         for app in (w, a):
             app.req_options.media_handlers[VND] = JSONHandler()
             app.resp_options.media_handlers[VND] = JSONHandler()
+            app.req_options.media_handlers[FAULTY_SYNC] = FaultySyncHandler()
+            app.req_options.media_handlers[FAULTY_ASYNC] = FaultyAsyncHandler()
         w.add_route('/doc', DocW())
         w.add_route('/echo', EchoW())
         a.add_route('/doc', DocA())
@@ -265,7 +338,11 @@ def apps():
 
         async def counted(scope, receive, send):
             async def rcv():
+                k = CUR['rcv']
                 CUR['rcv'] += 1
+                if CUR.get('rcv_fail_at') == k:
+                    CUR['rcv_failures'] = CUR.get('rcv_failures', 0) + 1
+                    raise OSError('simulated: connection reset by peer while receiving the request body')
                 return await receive()
             await a(scope, rcv, send)
         _APPS['w'], _APPS['a'] = w, counted
@@ -320,22 +397,35 @@ def chunk_events(body, chunks, style=0):
     return evs
 
 
-def deserialize(stack, ct, body, history, propagate, chunks=None, with_cl=True, style=0, trailing=b''):
-    """POST /echo. Returns (log, status, problems)."""
+def deserialize(stack, ct, body, history, propagate, chunks=None, with_cl=True, style=0, trailing=b'', fault=None):
+    """POST /echo. Returns (log, status, problems).
+    fault: {'io_fail_at': k} (k-th wsgi.input read / receive await raises OSError) and/or {'hplan': {...}}."""
     CUR.clear()
     log = []
     CUR.update(stack=stack, log=log, history=history, propagate=propagate, rcv=0)
+    fault = fault or {}
+    if 'hplan' in fault:
+        CUR['hplan'] = fault['hplan']
+    flaky = None
+    if 'io_fail_at' in fault:
+        if stack == 'w':
+            flaky = FlakyInput(body, fault['io_fail_at'])
+        else:
+            CUR['rcv_fail_at'] = fault['io_fail_at']
     ap = apps()
     headers = [] if ct is None else [('Content-Type', ct)]
     problems = []
     if stack == 'w':
         # a body-less request may come without any Content-Length; a body is always framed by one
         env = W.make_environ('POST', '/echo', headers=headers, body=body,
-                             content_length=None if (not body and not with_cl) else len(body), trailing=trailing)
+                             content_length=None if (not body and not with_cl) else len(body), trailing=trailing,
+                             wsgi_input=flaky)
         CUR['input'] = env['wsgi.input']
         res = W.run_wsgi(ap['w'], env)
         if res.exc is not None:
             problems.append('app raised %r' % (res.exc,))
+        if flaky is not None:
+            CUR['io_failures'] = flaky.failures
         if env['wsgi.input'].served_beyond:
             DIAG['beyond'] += 1                   # reading past Content-Length belongs to C07: diagnostic here
     else:
@@ -345,6 +435,7 @@ def deserialize(stack, ct, body, history, propagate, chunks=None, with_cl=True, 
                               events=chunk_events(body, chunks, style))
         if res.outcome != 'done':
             problems.append('asgi outcome %s %r' % (res.outcome, res.exc))
+        CUR['io_failures'] = CUR.get('rcv_failures', 0)
     DIAG['protocol'] += len(res.problems)
     return log, res.status, problems
 
@@ -929,6 +1020,93 @@ def phase_reassign(rec):
             rec.count('phase.reassign')
 
 
+def run_faulty(rec, stack, ct, body, history, fault, chunks=None, with_cl=True, tag='faulty'):
+    """One request whose single parse attempt fails with an arbitrary exception (I/O error while the body is
+    read, or a custom handler raising). Contract: every later access re-raises the IDENTICAL exception
+    instance, performs no stream operation and does not invoke the handler again."""
+    wit = {'mode': 'faulty', 'stack': stack, 'ct': ct, 'body_hex': body.hex(), 'history': ''.join(history),
+           'fault': fault, 'chunks': chunks, 'with_cl': with_cl, 'tag': tag}
+    log, status, problems = deserialize(stack, ct, body, history, False, chunks, with_cl, 0, b'', fault)
+    hdelta = CUR.get('hdelta', [])
+    fired = []
+
+    def fire(label, detail):
+        fired.append(label)
+        rec.violation(label, dict(wit, detail=detail, log=describe(log), hdelta=hdelta, status=status))
+
+    kind = 'io' if 'io_fail_at' in fault else 'handler'
+    rec.count('mon.faulty.%s.%s' % (kind, stack))
+    if problems:
+        fire('faulty-request-failed', problems[:3])
+    if len(log) != len(history) or len(hdelta) != len(history):
+        fire('responder-not-run', 'log %d entries for %d calls' % (len(log), len(history)))
+        return False
+    # harness self-check: the planned fault must really have happened during the first access
+    if kind == 'io' and CUR.get('io_failures', 0) < 1:
+        rec.count('harness.fault_not_injected')
+        return True
+    if kind == 'handler' and hdelta[0] != 1:
+        rec.count('harness.fault_not_injected')
+        return True
+    model = M.MediaModel(('error',))
+    for i, (op, default, k, payload, touched) in enumerate(log):
+        rec.count('mon.history_step')
+        for label, complaint in model.step(op, default, k, payload, touched):
+            fire(label, complaint)
+        if i > 0:
+            rec.count('mon.faulty.repeat_call')
+            if hdelta[i]:
+                fire('handler-invoked-again', 'call #%d invoked the media handler %d more time(s)' % (i + 1, hdelta[i]))
+    if status != 200:
+        fire('wire-status', 'responder completed but status is %r' % status)
+    if fault.get('hplan', {}).get('succeed_second'):
+        rec.count('mon.faulty.succeed_second')
+    if kind == 'handler':
+        rec.count('mon.faulty.exc.' + fault['hplan']['exc'])
+        rec.count('mon.faulty.' + ('async_handler' if ct == FAULTY_ASYNC else 'sync_handler'))
+    rec.case(('faulty', stack, ct, body, ''.join(history), repr(sorted(fault.items())), tuple(chunks or ()), with_cl))
+    return not fired
+
+
+def faulty_variants():
+    """(ct, body, fault, chunks) per stack - the bounded space of first-attempt failures."""
+    out = {'w': [], 'a': []}
+    body = b'{"k": [1, "\xc3\xa9"]}'
+    for ct in (JSON, None, FORM, VND):
+        out['w'].append((ct, body, {'io_fail_at': 0}, None))
+        n = len(body)
+        for k in (1, 2, n - 1):
+            out['a'].append((ct, body, {'io_fail_at': k}, [1] * n))
+        out['a'].append((ct, body, {'io_fail_at': 1}, [5, 5]))
+    for ct in (FAULTY_SYNC, FAULTY_ASYNC):
+        for exc in EXC_FACTORIES:
+            for when in ('before-read', 'after-read'):
+                for second in (False, True):
+                    plan = {'exc': exc, 'when': when, 'succeed_second': second}
+                    out['w'].append((ct, body, {'hplan': plan}, None))
+                    out['a'].append((ct, body, {'hplan': plan}, [4, 4]))
+        # a handler fault and an I/O fault combined: the handler's read hits the failing connection
+        plan = {'exc': 'ValueError', 'when': 'after-read', 'succeed_second': True}
+        out['w'].append((ct, body, {'hplan': plan, 'io_fail_at': 0}, None))
+        out['a'].append((ct, body, {'hplan': plan, 'io_fail_at': 1}, [1] * len(body)))
+    return out
+
+
+def phase_faulty(rec, maxlen):
+    """All histories of 2..maxlen accesses x every first-attempt failure variant x both stacks."""
+    variants = faulty_variants()
+    idx = 0
+    for L in range(2, maxlen + 1):
+        for hist in itertools.product(CODES, repeat=L):
+            for stack in 'wa':
+                for ct, body, fault, chunks in variants[stack]:
+                    idx += 1
+                    if idx % rec.nshards != rec.shard:
+                        continue
+                    run_faulty(rec, stack, ct, body, list(hist), fault, chunks, with_cl=bool(idx // 3 % 2))
+                    rec.count('phase.faulty')
+
+
 def phase_hostile(rec):
     idx = 0
     for desc, body in hostile_bodies():
@@ -1009,6 +1187,28 @@ def phase_random(rec):
                         gen_chunks(rng, len(bad)) if stack == 'a' else None, rng.random() < 0.5, rng.randrange(4),
                         tag='mutated')
             rec.count('mon.mutated_form')
+            # --- first parse attempt fails with a non-HTTP exception (random body, history, fault position)
+            stack = rng.choice('wa')
+            fb_body = alt if 3 <= len(alt) <= 2000 else b'{"a": [1, 2, 3]}'
+            if rng.random() < 0.5:
+                fct = rng.choice([JSON, None, FORM, VND])
+                if stack == 'w':
+                    run_faulty(rec, 'w', fct, fb_body, gen_history(rng) + [rng.choice(CODES)], {'io_fail_at': 0},
+                               tag='random')
+                else:
+                    nchunks = rng.randint(2, min(6, len(fb_body)))
+                    size = -(-len(fb_body) // nchunks)
+                    chunks = [size] * nchunks
+                    carrying = -(-len(fb_body) // size)      # events that carry data (>= 2 since size < len)
+                    run_faulty(rec, 'a', fct, fb_body, gen_history(rng) + [rng.choice(CODES)],
+                               {'io_fail_at': rng.randint(1, carrying - 1)}, chunks, rng.random() < 0.5,
+                               tag='random')
+            else:
+                plan = {'exc': rng.choice(sorted(EXC_FACTORIES)), 'when': rng.choice(['before-read', 'after-read']),
+                        'succeed_second': rng.random() < 0.5}
+                run_faulty(rec, stack, rng.choice([FAULTY_SYNC, FAULTY_ASYNC]), fb_body,
+                           gen_history(rng) + [rng.choice(CODES)], {'hplan': plan},
+                           gen_chunks(rng, len(fb_body)) if stack == 'a' else None, rng.random() < 0.5, tag='random')
             # --- empty bodies in every disguise
             stack = rng.choice('wa')
             ect = rng.choice(JSON_CTS)
@@ -1035,6 +1235,7 @@ def run(rec):
     apps()
     phase_corpus(rec)
     phase_reassign(rec)
+    phase_faulty(rec, 3 if quick else 4)
     phase_histories(rec, 4 if quick else 5)
     phase_truncations(rec, quick)
     phase_chunkings(rec, quick)
@@ -1049,6 +1250,8 @@ def run(rec):
         if v:
             rec.count('diag.' + k, v)
             rec.note('diagnostic (not part of the verdict): %s seen %d times in shard %d' % (k, v, rec.shard))
+    if rec.counters.get('harness.fault_not_injected'):
+        rec.mark_inconclusive('planned fault was not injected in %d requests' % rec.counters['harness.fault_not_injected'])
     if rec.counters.get('model.disagrees_with_body'):
         rec.mark_inconclusive('reference reader disagrees with a serialized body %d times: model needs triage'
                               % rec.counters['model.disagrees_with_body'])
@@ -1085,6 +1288,17 @@ def run(rec):
     rec.floor('mon.same_object.dict', 40)
     rec.floor('mon.same_object.list', 40)
     rec.floor('phase.reassign', 100)
+    rec.floor('phase.faulty', 2000)
+    rec.floor('mon.faulty.io.w', 100)
+    rec.floor('mon.faulty.io.a', 300)
+    rec.floor('mon.faulty.handler.w', 1000)
+    rec.floor('mon.faulty.handler.a', 1000)
+    rec.floor('mon.faulty.sync_handler', 1000)
+    rec.floor('mon.faulty.async_handler', 1000)
+    rec.floor('mon.faulty.succeed_second', 1000)
+    rec.floor('mon.faulty.repeat_call', 5000)
+    for name in EXC_FACTORIES:
+        rec.floor('mon.faulty.exc.' + name, 200)
 
 
 # ------------------------------------------------------------------ replay
@@ -1112,6 +1326,13 @@ def replay(rec, w):
             for op, default, k, payload, touched in log:
                 for label, complaint in model.step(op, default, k, payload, touched):
                     rec.violation('roundtrip-' + label, dict(wit, detail=complaint))
+        rec.case(('replay', 1))
+        rec.case(('replay', 2))
+        return
+    if wit.get('mode') == 'faulty':
+        ok = run_faulty(rec, wit['stack'], wit['ct'], bytes.fromhex(wit['body_hex']), list(wit['history']),
+                        wit['fault'], wit.get('chunks'), wit.get('with_cl', True), tag='replay')
+        print('replayed:', 'no monitor fired' if ok else 'monitor fired')
         rec.case(('replay', 1))
         rec.case(('replay', 2))
         return
